@@ -283,6 +283,15 @@ func (r *reader) num() int64 {
 	r.pos++
 	return v
 }
+
+// flag reads the optional trailing flag of ops 3, 12, 30 (absent = 0). Odd: no callback is passed;
+// >= 2 (op 30, one component): the single-component Map[T] is used instead of Map1[T].
+func (r *reader) flag() int64 {
+	if r.pos >= len(r.l) {
+		return 0
+	}
+	return r.num()
+}
 func (r *reader) list() []int64 {
 	n := int(r.num())
 	out := make([]int64, n)
@@ -379,7 +388,12 @@ func (s *Sim) exec(line []int64) []int64 {
 		ids := s.ids(r.list())
 		return s.created(u.NewEntityRel(ids, s.rels(r.pairs())...))
 	case 3:
-		w.NewEntities(int(r.num()), s.batchCb)
+		n := int(r.num())
+		if r.flag()%2 == 1 {
+			w.NewEntities(n, nil)
+		} else {
+			w.NewEntities(n, s.batchCb)
+		}
 	case 4:
 		return s.created(w.CopyEntity(s.handle(r.num())))
 	case 5:
@@ -415,7 +429,11 @@ func (s *Sim) exec(line []int64) []int64 {
 	case 12:
 		f := s.Filters[r.num()]
 		rels := s.rels(r.pairs())
-		w.RemoveEntities(s.filterBatch(f, rels), s.batchCb)
+		if r.flag()%2 == 1 {
+			w.RemoveEntities(s.filterBatch(f, rels), nil)
+		} else {
+			w.RemoveEntities(s.filterBatch(f, rels), s.batchCb)
+		}
 	case 13:
 		w.Reset()
 		for _, o := range s.Observers {
@@ -549,9 +567,28 @@ func (s *Sim) exec(line []int64) []int64 {
 	case 30:
 		n := int(r.num())
 		comps := r.list()
-		rels := s.rels(r.pairs())
+		relPairs := r.pairs()
+		rels := s.rels(relPairs)
 		vals := r.pairs()
-		s.mapper(comps).NewBatchFn(n, s.valsCb(comps, vals), rels)
+		fl := r.flag()
+		cb := s.valsCb(comps, vals)
+		if fl%2 == 1 {
+			cb = nil
+		}
+		single := fl >= 2 && len(comps) == 1 && (len(relPairs) == 0 || (len(relPairs) == 1 && relPairs[0][0] == comps[0]))
+		if single {
+			var targets []ecs.Entity
+			for _, rl := range relPairs {
+				targets = append(targets, s.handle(rl[1]))
+			}
+			var cb1 func(ecs.Entity, unsafe.Pointer)
+			if cb != nil {
+				cb1 = func(e ecs.Entity, p unsafe.Pointer) { cb(e, []unsafe.Pointer{p}) }
+			}
+			s.setter(int(comps[0])).NewBatchFn(n, cb1, targets...)
+		} else {
+			s.mapper(comps).NewBatchFn(n, cb, rels)
+		}
 	case 31:
 		f := s.Filters[r.num()]
 		brels := s.rels(r.pairs())
